@@ -90,6 +90,10 @@ func ParsePathUint64(khash uint64, buf []int) []int {
 }
 
 func ParsePathString(pathStr string, buf []int) ([]int, error) {
+	if len(pathStr) > len(buf) {
+		// longer than a key hash: there is no such node (slicing buf would panic)
+		return nil, strconv.ErrRange
+	}
 	path := buf[:len(pathStr)]
 	for i := 0; i < len(pathStr); i++ {
 		idx, err := strconv.ParseInt(pathStr[i:i+1], 16, 0)
